@@ -13,12 +13,16 @@ struct Ledger {
 	long constructed = 0, destroyed = 0, copies = 0, moves = 0;
 	std::vector<std::string> errors;
 	std::function<void(int cls, int id, bool movedFrom, int copyDepth)> onDeath;   // observer for destruction times
+	// observer for object accesses (0 = constructed, 1 = read, 2 = moved from / destroyed): the Engine S harnesses feed the
+	// happens-before race detector with it, so that a payload read outside the lock that orders it with its consumer is reported
+	std::function<void(const void * p, int kind)> onObject;
 
-	void reset() { live.clear(); errors.clear(); constructed = destroyed = copies = moves = 0; onDeath = nullptr; }
+	void reset() { live.clear(); errors.clear(); constructed = destroyed = copies = moves = 0; onDeath = nullptr; onObject = nullptr; }
 
 	void born(const void * p, int cls, int id, bool moved = false, int copyDepth = 0) {
 		HarnessScope hs;
 		++constructed;
+		if(onObject) onObject(p, 0);
 		auto it = live.find(p);
 		if(it != live.end()) {
 			errors.push_back(fmt("object constructed over a live object (class %d id %d over id %d)", cls, id, it->second.id));
@@ -30,6 +34,7 @@ struct Ledger {
 	void died(const void * p, int cls, int id) {
 		HarnessScope hs;
 		++destroyed;
+		if(onObject) onObject(p, 2);
 		auto it = live.find(p);
 		if(it == live.end()) { errors.push_back(fmt("destruction of an object that is not alive (class %d id %d): destroyed twice or never constructed", cls, id)); return; }
 		bool mv = it->second.moved; int cd = it->second.copyDepth;
@@ -38,11 +43,12 @@ struct Ledger {
 	}
 	bool touch(const void * p, int cls, int id) {
 		HarnessScope hs;
+		if(onObject) onObject(p, 1);
 		auto it = live.find(p);
 		if(it == live.end()) { errors.push_back(fmt("access to an object after its destruction (class %d id %d)", cls, id)); return false; }
 		return true;
 	}
-	void setMoved(const void * p) { auto it = live.find(p); if(it != live.end()) it->second.moved = true; }
+	void setMoved(const void * p) { if(onObject) onObject(p, 2); auto it = live.find(p); if(it != live.end()) it->second.moved = true; }
 
 	int liveCount(int cls, int id) const {
 		int n = 0;
